@@ -96,7 +96,14 @@ def run(run):
                 for shape in ((L,), (3, L)) + (((1, L),) if (T + L) % 2 == 0 else ()) + (((2, 1, 2, L // 2),) if (L % 2 == 0 and (T + L) % 3 == 0) else ()):
                     cfg = {"fading": kname, "case": "blocks", "L": L, "T": T, "ndim": len(shape), "divides": L % T == 0}
                     try:
-                        y = mk(T)(torch.ones(shape))
+                        if len(shape) == 2 and shape[0] == 3 and (T + L) % 4 == 1:
+                            # the channel as a stage of a pipeline model that is called with a tensor extra (an SNR per item, as DeepJSCC models
+                            # are): the extra is handed to every stage and is not the channel state
+                            from kaira.models.generic import SequentialModel
+                            cfg["route"] = "SequentialModel(x, snr tensor)"
+                            y = SequentialModel(steps=[mk(T)])(torch.ones(shape), torch.full((shape[0], 1), 10.0))
+                        else:
+                            y = mk(T)(torch.ones(shape))
                     except Exception as ex:
                         run.violate(comp, "channel_raised", cfg, {"error": repr(ex)[:200]})
                         continue
